@@ -125,6 +125,11 @@ def histories(seed, n):
             hs.append([("build", which), ("edit_g", v), ("build", which), ("build", which), ("edit_g", "g1"), ("build", which)])
     for v in L:
         hs.append([("build", "both"), ("edit_l", v), ("build", "both"), ("edit_l", "l1"), ("build", "both"), ("build", "both")])
+    # the grammar changes within the same tick as the generated file was written: regenerate
+    for v in ("g2", "g3", "gconf", "g1"):
+        for which in ("parser", "both"):
+            hs.append([("build", which), ("edit_g_same", v), ("build", which), ("build", which), ("edit_g_same", "g1"), ("build", which)])
+            hs.append([("build", which), ("edit_g", "g3"), ("edit_g_same", v), ("build", which)])
     hs.append([("build", "parser"), ("edit_g", "gbad"), ("edit_l", "lbad"), ("build", "both"), ("edit_l", "l1"), ("build", "both")])
     # lexer tokens the grammar does not know: a warning, or an error with warnings_are_errors
     hs.append([("build", "both"), ("edit_l", "lextra"), ("build", "both"), ("set", "lex_wae", True), ("build", "both"), ("edit_l", "l1"), ("build", "both")])
@@ -132,7 +137,7 @@ def histories(seed, n):
     # the %expect matrix with error_on_conflicts on and off
     for v in ("gconf", "gconfe", "gexp", "gexprr", "grr", "grre", "grre2", "gboth", "gbothe", "gbothrr", "gbothok"):
         hs.append([("edit_g", v), ("build", "parser"), ("set", "eoc", False), ("build", "parser"), ("set", "eoc", True), ("build", "parser")])
-    ops = [("edit_g", v) for v in G] + [("edit_l", v) for v in L] + [("build", "parser")] * 6 + [("build", "both")] * 6
+    ops = [("edit_g", v) for v in G] + [("edit_g_same", v) for v in ("g1", "g2", "g3", "gconf")] + [("edit_l", v) for v in L] + [("build", "parser")] * 6 + [("build", "both")] * 6
     for i in range(n):
         h = []
         for _ in range(rng.randint(4, 9)):
@@ -185,6 +190,16 @@ def run_history(wd, hid, h, gi, li):
             state["g"] = op[1]
             clock += 1
             ev.append(dict(ev="edit_g", v=op[1]))
+        elif op[0] == "edit_g_same":
+            # same modification time as the generated parser (if there is one)
+            op_ = os.path.join(d, "g.y.rs")
+            put("g.y", G[op[1]], clock)
+            if os.path.exists(op_):
+                st = os.stat(op_)
+                os.utime(os.path.join(d, "g.y"), ns=(st.st_mtime_ns, st.st_mtime_ns))
+            state["g"] = op[1]
+            clock += 1
+            ev.append(dict(ev="edit_g_same", v=op[1]))
         elif op[0] == "edit_l":
             put("l.l", L[op[1]], clock)
             state["l"] = op[1]
